@@ -330,10 +330,10 @@ def registry_names():
 
 def c13_reject(case: int, api: int, interactive: int) -> bool:
   """
-  pre: 0 <= case < 11 and 0 <= api < 3 and 0 <= interactive < 3
+  pre: 0 <= case < 13 and 0 <= api < 3 and 0 <= interactive < 3
   """
   world.fresh()
-  case = rt.pick(case, 11)
+  case = rt.pick(case, 13)
   api = rt.pick(api, 3)
   interactive = rt.pick(interactive, 3)   # 0 no, 1 inside interactive_mode, 2 after a block that raised
   rt.sig(('reject', case, api, interactive), nontrivial=True)
@@ -387,9 +387,9 @@ def c13_reject(case: int, api: int, interactive: int) -> bool:
         if after != before:
           return rt.no('rejected class registration changed the registry: %r' % sorted(after ^ before))
         return True
-      if case == 10 and interactive == 1:
+      if case == 12 and interactive == 1:
         return exc is None
-      if case == 10:
+      if case == 12:
         if exc is None or not isinstance(exc, ValueError):
           return rt.no('an equal-but-different object under an existing name must be rejected')
         if gin.get_configurable('vw13.c13eq')() != ('eq', 1, 1):
@@ -416,6 +416,17 @@ def c13_reject(case: int, api: int, interactive: int) -> bool:
           del gc._INVERSE_REGISTRY[o_]
       gc._RENAMED_SELECTORS.clear()
       gc._INTERACTIVE_MODE = False
+
+
+def _twice(fn):
+  import functools
+
+  def deco(g):
+    @functools.wraps(g)
+    def w(*a, **k):
+      return g(*a, **k)
+    return w
+  return deco(deco(fn))
 
 
 def _cls_with_method():
@@ -460,6 +471,8 @@ CASES = [
     lambda reg, f: None,                                     # 7 placeholder (same object again, below)
     lambda reg, f: reg(_HOLD[0], name='c13cls', allow=['nope']),   # 8 class with a registered method,
     lambda reg, f: reg(_HOLD[0], name='c13cls', deny=['nope']),    # 9 unknown allow / deny name
+    lambda reg, f: reg(_twice(f), name='c13x', allow=['nope']),      # 10 two functools.wraps layers,
+    lambda reg, f: reg(_twice(f), name='c13x', deny=['nope']),       # 11 unknown allow / deny name
     lambda reg, f: (reg(EqCallable('same', 1), name='c13eq'),        # 8 a DIFFERENT object that merely
                     reg(EqCallable('same', 2), name='c13eq')),       #   compares equal to the registered one
 ]
@@ -486,9 +499,9 @@ HARNESSES = {
         anchors=['gin.config:_make_configurable', 'gin.config:_validate_parameters', 'gin.config:interactive_mode'],
         smoke=[dict(case=0, api=1, interactive=0), dict(case=0, api=0, interactive=1),
                dict(case=4, api=2, interactive=2)],
-        tiers={'quick': dict(split=dict(case=list(range(11))), budget_s=100),
-               'thorough': dict(split=dict(case=list(range(11)), api=[0, 1, 2]), budget_s=300)},
-        bounds='10 rejected registrations (incl. a class with a separately registered method and an unknown allow/deny name, (incl. a different callable object that compares equal to the registered one; (different object under an existing full name, invalid name x2, invalid module, '
+        tiers={'quick': dict(split=dict(case=list(range(13))), budget_s=100),
+               'thorough': dict(split=dict(case=list(range(13)), api=[0, 1, 2]), budget_s=300)},
+        bounds='12 rejected registrations (incl. a function behind two functools.wraps layers with an unknown allow/deny name; (incl. a class with a separately registered method and an unknown allow/deny name, (incl. a different callable object that compares equal to the registered one; (different object under an existing full name, invalid name x2, invalid module, '
                'unknown allowlist / denylist name, both lists) x 3 APIs x {outside, inside interactive mode, after an '
                'interactive block that raised}'),
 }
